@@ -48,6 +48,34 @@ def make_directed(row, case):
             symbols, frac, molidx, bonds = [symbols[q] for q in order], [frac[q] for q in order], [molidx[q] for q in order], [(inv[a], inv[b]) for a, b in bonds]
         asym = {"symbols": symbols, "frac": np.array(frac), "molidx": molidx, "bonds": bonds, "cell": cell, "M": M}
         return ops, cell, asym, mol.images(ops, asym)
+    if d.get("manymol"):
+        # a medium-sized asymmetric unit: n water molecules (3n sites) in general positions of ANY setting, centres placed one by one
+        # from a low-discrepancy sequence so that all symmetry images of all centres stay 4.9 A apart (atoms of different molecules then
+        # are at least 2.9 A apart), each molecule in its own orientation
+        from mc.checks.c13 import many_sites
+
+        n = d["n"]
+        cell = mol.scaled_cell(row["number"], row["choice"], len(ops), max(1, int(n * 3.2)), 0)
+        M = lattice.cell_matrix(*cell)
+        Mi = np.linalg.inv(M)
+        centres = many_sites(ops, M, n, 0.0071 * (row["number"] % 13), dmin=4.9)
+        if len(centres) < n:
+            raise RuntimeError("could not place %d molecules in %s:%s" % (n, row["number"], row["choice"]))
+        syms_w, xyz_w, bnd_w = mol.TEMPLATES["H2O"]
+        symbols, frac, molidx, bonds = [], [], [], []
+        for mi_, c in enumerate(centres):
+            xyz = np.asarray(xyz_w) @ rot((1 + mi_ % 3, 2, 3 - mi_ % 5), 0.7 + 0.37 * mi_).T
+            o = len(symbols)
+            symbols += list(syms_w)
+            frac += [tuple(p) for p in (c @ M + xyz) @ Mi]
+            molidx += [mi_] * len(syms_w)
+            bonds += [(o + a, o + b) for a, b in bnd_w]
+        if d.get("listing") == "heavy-first":
+            order = sorted(range(len(symbols)), key=lambda q: (symbols[q] == "H", q))
+            inv = {old_: new_ for new_, old_ in enumerate(order)}
+            symbols, frac, molidx, bonds = [symbols[q] for q in order], [frac[q] for q in order], [molidx[q] for q in order], [(inv[a], inv[b]) for a, b in bonds]
+        asym = {"symbols": symbols, "frac": np.array(frac), "molidx": molidx, "bonds": bonds, "cell": cell, "M": M}
+        return ops, cell, asym, mol.images(ops, asym)
     if d.get("rod"):
         # a polyyne rod H-(C)n-H lying in the ab plane at 45 degrees to a SHORT a axis: it spans several cells along a while
         # staying 3.5 A away from its own a-translates; listed from either end, starting in / above / below the reference cell
@@ -130,7 +158,13 @@ def make(row, case):
 
 def check_case(part, row, case):
     sk = "%d:%s" % (row["number"], row["choice"])
-    ops, cell, asym, imgs = make(row, case)
+    try:
+        ops, cell, asym, imgs = make(row, case)
+    except RuntimeError as e:
+        if "could not place" not in str(e):
+            raise
+        part.skip("could not place the molecules of a medium-sized asymmetric unit")
+        return None
     ok, why = mol.precondition(asym, imgs)
     if not ok:
         part.skip(why)
@@ -321,6 +355,11 @@ def plan(row, tier, seed, full):
                 for listing in (None, "reversed", "even-odd", "scrambled"):
                     cases.append({"number": row["number"], "choice": row["choice"], "zkind": "directed", "centre": [0, 0, 0], "orient": 0, "seed": seed,
                                   "directed": {"rod": True, "ncarbon": nc, "start": start, "listing": listing}})
+    # medium-sized asymmetric units (22 / 24 waters = 66 / 72 sites) in settings with few enough operations to keep the cell affordable
+    if len(row["symops"]) <= 24 and (full or (row["index_in_number"] == 0 and (row["number"] + seed) % 4 == 0) or (row["number"], row["choice"]) in ((146, "H"), (76, ""), (169, ""), (43, ""))):
+        for n, listing in ((24, None), (22, "heavy-first")):
+            cases.append({"number": row["number"], "choice": row["choice"], "zkind": "directed", "centre": [0, 0, 0], "orient": 0, "seed": seed,
+                          "directed": {"manymol": True, "n": n, "listing": listing}})
     # realistic sizes: 648 .. 3072 atoms in the cell (water grids in P1 / P-1), listed molecule by molecule and heavy atoms first
     if row["number"] <= 2 and row["index_in_number"] == 0:
         for n in ((6, 7, 8, 9) if row["number"] == 1 else (5, 6, 7, 8)) if full else ((6, 7, 8) if row["number"] == 1 else (5, 7)):
